@@ -413,9 +413,10 @@ class Bada3PistonEngineModel(Bada3EngineModel):
 
         Returns
         -------
-        Union[float, NDArray] - nominal fuel flow for piston engines.
+        Union[float, NDArray] - nominal fuel flow for piston engines [kg/s].
         """
-        return self.aircraft_parameters.c_f1
+        # C_f1 of a piston engine is a fuel flow in kg/min (BADA-3 OPF format)
+        return self.aircraft_parameters.c_f1 / 60
 
     def calculate_cruise_fuel_flow(self, thrust, v_tas) -> FloatOrNDArray:
         """
@@ -429,9 +430,9 @@ class Bada3PistonEngineModel(Bada3EngineModel):
 
         Returns
         -------
-        Union[float, NDArray] - cruise fuel flow for piston engines.
+        Union[float, NDArray] - cruise fuel flow for piston engines [kg/s].
         """
-        return self.aircraft_parameters.c_f1 * self.aircraft_parameters.c_fcr
+        return self.aircraft_parameters.c_f1 / 60 * self.aircraft_parameters.c_fcr
 
     def calculate_max_climb_thrust_isa(
         self, altitude: FloatOrNDArray, v_tas: FloatOrNDArray
